@@ -31,7 +31,7 @@ class Arr:
     """Symbolic array.  dims: tuple of labels (None = broadcast axis).  mask: pending boolean
     selection (Poly) from a masked read.  unit: unit tag (Poly) or None when not tracked.
     The value semantics of a Quantity is "the physical quantity" (value * unit atoms)."""
-    __slots__ = ('dims', 'poly', 'mask', 'unit', 'fresh', 'dt')
+    __slots__ = ('dims', 'poly', 'mask', 'unit', 'fresh', 'dt', 'xr')
 
     def __init__(self, dims, poly, mask=None, unit=None, fresh=False, dt=None):
         self.dims = tuple(dims)
@@ -40,6 +40,9 @@ class Arr:
         # element type, tracked only where it is known: 'f' real-valued, 'i' integer, 'inherit' = a buffer created with the
         # element type of a caller-supplied array (zeros_like / copy), None = not tracked
         self.dt = dt
+        # the expression tree the value was computed by (operators and comparisons only, un-normalised), kept when the interpreter
+        # runs with track_xr: arithmetic on IEEE infinities / NaN is not polynomial arithmetic, so it is decided on this tree (xreal.py)
+        self.xr = None
 
     @property
     def ndim(self):
@@ -47,6 +50,8 @@ class Arr:
 
     def with_(self, **kw):
         a = Arr(self.dims, self.poly, self.mask, self.unit, dt=self.dt)
+        if 'poly' not in kw and 'mask' not in kw:
+            a.xr = self.xr
         for k, v in kw.items():
             setattr(a, k, v)
         return a
@@ -177,6 +182,8 @@ class Interp:
         self.depth = 0
         self.stack = []
         self.unit_checks = []
+        self.track_xr = False    # keep expression trees of arithmetic/comparisons (Arr.xr) and log reductions over them
+        self.xr_log = []         # (result poly, kind, tree of the reduced argument)
         self.exact_le = False    # True: a <= b is kept exact (not identified with a < b); used when ties are in the quantifier
 
     # ------------------------------------------------------------------ calls
@@ -794,11 +801,17 @@ class Interp:
                 if isinstance(v, (int, float)) and not isinstance(v, bool):
                     return -v
                 if isinstance(v, Arr):
-                    return v.with_(poly=-v.poly)
+                    r_ = v.with_(poly=-v.poly)
+                    if self.track_xr:
+                        r_.xr = ('neg', _xr(v))
+                    return r_
             if isinstance(e.op, ast.UAdd):
                 return v
             if isinstance(e.op, ast.Invert) and isinstance(v, Arr):
-                return v.with_(poly=alg.b_not(v.poly))
+                r_ = v.with_(poly=alg.b_not(v.poly))
+                if self.track_xr:
+                    r_.xr = ('not', _xr(v))
+                return r_
             if isinstance(e.op, ast.Not):
                 tv = self._truth(v)
                 if tv is not None:
@@ -877,6 +890,8 @@ class Interp:
     # ---- arithmetic
     def binop(self, op, a, b, node):
         r = self._binop(op, a, b, node)
+        if self.track_xr and isinstance(r, Arr):
+            r.xr = ('bin', type(op).__name__, _xr(a), _xr(b))
         if isinstance(r, Arr) and r.dt is None:
             def real(v):
                 return (isinstance(v, Arr) and v.dt == 'f') or (isinstance(v, float) and v != int(v) if isinstance(v, float) and v == v and abs(v) != float('inf') else False)
@@ -1035,7 +1050,10 @@ class Interp:
             p = _le(-diff) if not self.exact_le else alg.b_not(alg.mk_ind('<0', diff))
         else:
             return Unk('comparison operator', e)
-        return Arr(d, p, mk)
+        r_ = Arr(d, p, mk)
+        if self.track_xr:
+            r_.xr = ('cmp', opn.__name__, _xr(a), _xr(b))
+        return r_
 
     def _unit_kind_check(self, a, b, node, mod, what):
         """A bare number meets a dimensional quantity: astropy raises UnitConversionError."""
@@ -1374,6 +1392,8 @@ class Interp:
             if alg.poly_labels(mask) & gone:
                 mask = None
         dims = [d for k, d in enumerate(x.dims) if k not in axes]
+        if self.track_xr:
+            self.xr_log.append((p, kind, _xr(x)))
         return Arr(dims, p, mask, x.unit if kind in ('sum', 'max', 'min', 'nanmax', 'nanmin') else None)
 
     def libcall(self, name, args, kw, e, mod):
@@ -2007,6 +2027,16 @@ def setter_private_attr(fi):
 
 
 # ---------------------------------------------------------------- helpers
+
+def _xr(v):
+    if isinstance(v, Arr):
+        return v.xr if v.xr is not None else ('leaf', v.poly)
+    if isinstance(v, bool):
+        return ('const', 1.0 if v else 0.0)
+    if isinstance(v, (int, float, Fraction)):
+        return ('const', float(v))
+    return ('top',)
+
 
 def _dtype_kind(v, default):
     """element-type class of a dtype argument: 'f' | 'i' | None (not recognised: untracked)"""
